@@ -114,36 +114,10 @@ def summarise_recorder(recorder) -> dict:
     return {"label": recorder.label, "cases": cases, "checks": checks, "interactions": interactions}
 
 
-_PRELOADED = False
-
-
 def preload() -> None:
-    """Import every schemathesis (and harness) module up front.
+    from vfw.core import preload as _preload
 
-    Hypothesis >= 6.131 feeds string / number constants found in *local* modules (anything outside site-packages - here the
-    source checkout of schemathesis and this harness) into generation, and re-scans whenever ``sys.modules`` grows. With
-    lazy imports the first engine run in a process would therefore draw from another pool than the second one, which is a
-    property of running from a checkout, not of the code under test. Loading everything first keeps the pool fixed.
-    """
-    global _PRELOADED
-    if _PRELOADED:
-        return
-    import importlib
-    import pkgutil
-
-    import schemathesis
-    import vfw.harness
-    import vfw.oracle
-
-    for pkg in (schemathesis, vfw.harness, vfw.oracle):
-        for info in pkgutil.walk_packages(pkg.__path__, pkg.__name__ + "."):
-            if info.name.startswith(("schemathesis.pytest", "vfw.fuzz")):
-                continue
-            try:
-                importlib.import_module(info.name)
-            except Exception:  # noqa: BLE001 - optional dependency missing
-                pass
-    _PRELOADED = True
+    _preload()
 
 
 def build_config(cfg: dict):
